@@ -387,4 +387,38 @@ theorem unpack_growth (s y : List UInt8) (h : goUnpack s = (y, true)) : y.length
 example : (∀ w ∈ ([[0,0,0,0,0,0,0,0],[0,0,0,0,0,0,0,0],[1,2,3,4,5,6,7,8],[1,2,3,4,5,6,7,9],[0,0,5,0,0,0,0,0]] : List Word),
     w.length = 8) := by decide
 
+/-- **worst-case expansion of `Pack`**: at most 10 bytes per input word (tag, 8 literal bytes, one run-length byte),
+    for every input -/
+theorem packFuel_length (f : Nat) (ws : List Word) (hw : ∀ w ∈ ws, w.length = 8) :
+    (packFuel f ws).length ≤ 10 * ws.length := by
+  induction f generalizing ws with
+  | zero => cases ws <;> simp [packFuel]
+  | succ f ih =>
+    cases ws with
+    | nil => simp [packFuel]
+    | cons w ws =>
+      have hw8 : w.length = 8 := hw w (by simp)
+      have hws : ∀ x ∈ ws, x.length = 8 := fun x hx => hw x (by simp [hx])
+      have hnz : (w.filter (· != 0)).length ≤ 8 := by
+        have := List.length_filter_le (· != 0) w; omega
+      simp only [packFuel]
+      split
+      · have hr := ih (ws.drop (min (numZeroWords ws) 255)) (fun x hx => hws x (List.mem_of_mem_drop hx))
+        simp only [List.length_cons, List.length_append, List.length_nil, List.length_drop] at hr ⊢
+        omega
+      · split
+        · have hr := ih (ws.drop (literalRun 255 ws)) (fun x hx => hws x (List.mem_of_mem_drop hx))
+          have ht := flatten_length8 (ws.take (literalRun 255 ws)) (fun x hx => hws x (List.mem_of_mem_take hx))
+          simp only [List.length_cons, List.length_append, List.length_nil, List.length_drop, List.length_take] at hr ht ⊢
+          omega
+        · have hr := ih ws hws
+          simp only [List.length_cons, List.length_append] at hr ⊢
+          omega
+
+theorem pack_length (ws : List Word) (hw : ∀ w ∈ ws, w.length = 8) : (pack ws).length ≤ 10 * ws.length :=
+  packFuel_length _ ws hw
+
+-- non-vacuity: the bound is met by a single dense word
+example : (pack [[1,2,3,4,5,6,7,8]]).length = 10 := by decide
+
 end Capnp.Props.C13
